@@ -42,6 +42,10 @@ def EvalOut.same : EvalOut → EvalOut → Bool
   | .err a, .err b => a == b
   | _, _ => false
 
+/-- numeric leaves that `Expression`'s own `PartialEq` (floating_point_eq) identifies: equal bits, both NaN,
+or equal as numbers (`+0.0 == -0.0`), per component -/
+def leafEquiv (a b : CFloat) : Bool := CFloat.closeF 0.0 a.1 b.1 && CFloat.closeF 0.0 a.2 b.2
+
 def EvalOut.isOk : EvalOut → Bool
   | .ok _ => true
   | .err _ => false
@@ -73,6 +77,12 @@ def handle (inp out : Sexp) : CaseResult :=
           let substAgree := encodeExpr mSubst == o2
           let refsAgree := mRefs == iRefs
           let agree := c1 > 0 && c3 > 0 && c4 > 0 && substAgree && refsAgree
+          -- known-finding classifier `C13/interning-merges-signed-zero` (as narrow as the cause): the
+          -- implementation's substituted tree differs from the model's ONLY in the sign of zero components /
+          -- NaN payloads of numeric leaves (what `ArcIntern`'s coarse equality can merge), and the
+          -- implementation's evaluation is exactly the model's evaluation of that altered tree.
+          let kfIntern := !substAgree && mSubst.beqWith leafEquiv iSubst &&
+            (ofExcept (eval ρ μ iSubst)).cmp iAfter > 0 && c1 > 0 && c4 > 0 && refsAgree
           -- the specification, evaluated on the implementation's outputs
           let numeric := σl.all fun (_, t) => match t with | .number _ => true | _ => false
           let s1 := iAfter.same iBound                                   -- substitute-then-evaluate = evaluate bound
@@ -96,7 +106,8 @@ def handle (inp out : Sexp) : CaseResult :=
              if σl.isEmpty then "sigma-empty" else if numeric then "sigma-num" else "sigma-expr",
              if e.vars.any (fun x => (σ x).isSome) then "subst-hit" else "subst-miss",
              s!"refs{min iRefs.length 4}",
-             if c1 == 2 && c3 == 2 && c4 == 2 then "val-bitexact" else "val-close"]
+             if c1 == 2 && c3 == 2 && c4 == 2 then "val-bitexact" else "val-close"] ++
+            (if kfIntern then ["kf:C13/interning-merges-signed-zero"] else [])
           { agree := agree, specOk := specOk,
             nontrivial := !e.vars.isEmpty || !e.addrs.isEmpty,
             tags := tags,
